@@ -106,6 +106,9 @@ func (m *C11) After(w *world.World, a *world.Action, r *world.StepResult) *Viola
 				if tx.Action != nil && tx.Action.Kind == world.KRelay && tx.Action.Relay != nil && tx.Action.Relay.Op == "timeout" && tx.OK() {
 					kind = "timeout"
 				}
+				if tx.Action != nil && tx.Action.Kind == world.KRelay && tx.Action.Relay != nil && tx.Action.Relay.Op == "ack" && tx.Action.Relay.Dir == "p2c" && tx.OK() {
+					kind = "error-ack"
+				}
 			}
 			m.stopKinds[kind] = true
 			w.Label("stop:" + kind)
